@@ -81,10 +81,15 @@ def _us_post(c, v0, v1, r):
             'ends': c.And(c.Implies(c.Eq(v0.x, 0), c.Eq(r, s._low_bounds)), c.Implies(c.Eq(v0.x, 1), c.Eq(r, s._up_bounds)))}
 
 
-def _us_native(c, p):
-    o = _mk('Uniform')
+def _us_obj(c, p):
+    return _mk('Uniform')
+
+
+def _us_call(c, o, p):
+    """one prior object serves many samples; its bounds are changed the way users and the optimizer change them
+    (set_bounds), then the cube value is mapped"""
     s = p['self']
-    o._low_bounds, o._up_bounds, o._scale = s['_low_bounds'], s['_up_bounds'], s['_scale']
+    o.set_bounds([s['_low_bounds'], s['_up_bounds']])
     return float(o.sample(p['x'])), p
 
 
@@ -94,7 +99,7 @@ def _us_gen(rng):
     return dict(low=lo, up=lo + sc, scale=sc, x=rng.choice([0.0, 1.0, rng.random()]))
 
 
-U_S = Unit(['C08', 'C06'], PR + 'Uniform.sample', _us_params, pre=_us_pre, post=_us_post, native=_us_native, gen=_us_gen,
+U_S = Unit(['C08', 'C06'], PR + 'Uniform.sample', _us_params, pre=_us_pre, post=_us_post, native_obj=_us_obj, native_call=_us_call, gen=_us_gen,
            result=lambda ex, st, v0: ex.c.fresh('u', z3.RealSort()), bounds=[{}], short='Uniform.sample',
            doc='scipy.stats.uniform.ppf assumed = loc + x*scale on [0,1]')
 
